@@ -69,4 +69,21 @@ values as a whole. -/
 theorem whole_identity_compared :
     comparesWholeIdentity = true ∧ identityFromCurrentOptions = true ∧ resumeUsesThatIdentity = true := by decide
 
+/-- The source-count guards are the model's: a completed graph is refused when its node count OR its
+relationship count differs from the recorded one (`sourceOk` compares the pair; a conjunction would accept a
+change in one dimension), and the graph in progress when its whole snapshot (both counts) differs. -/
+theorem source_guards_as_modelled :
+    completedSourceGuard = "snapshot.NodeCount != graphEntry.NodeCount || snapshot.EdgeCount != graphEntry.EdgeCount" ∧
+    currentSourceGuard = "checkpoint.Snapshot != currentSnapshot" ∧ snapshotFields = ["NodeCount", "EdgeCount"] := by decide
+
+/-- The resume-time walk of the output directory skips directories and nothing else: every regular file, whatever
+its name (`*.tmp` included), is checked against the checkpointed set (model: `noUnexpected` looks at every path). -/
+theorem walk_skips_only_directories : walkSkips = ["entry.IsDir()"] := by decide
+
+/-- The scrubber's cached plan is a function of the cache key only: the cache is indexed by the normalised key, the
+normalised key is `normalizeKey` of the raw key, and no plan field is computed from the raw key (the premise of
+`scrub_plan_cache_unobservable`). -/
+theorem scrub_plan_from_cache_key_only :
+    planCacheKey = "normalized" ∧ planNormalizedFrom = "normalized:=normalizeKey(key)" ∧ planFieldsFromRawKey = [] := by decide
+
 end Dawgs.C19.Props
